@@ -380,6 +380,18 @@ func (e *ordEval) run(list []ast.Stmt) (ordResult, bool) {
 				e.fail("return with %d results", len(v.Results))
 				return ordResult{}, true
 			}
+			if call, ok := ast.Unparen(v.Results[0]).(*ast.CallExpr); ok && e.depth < 6 {
+				// a function literal called where it stands (a callback parameter replaced by the literal)
+				if lit, isLit := ast.Unparen(call.Fun).(*ast.FuncLit); isLit && len(call.Args) == 0 {
+					e.depth++
+					res, ret := e.run(lit.Body.List)
+					e.depth--
+					if !ret {
+						e.fail("function literal falls off its end")
+					}
+					return res, true
+				}
+			}
 			if call, ok := ast.Unparen(v.Results[0]).(*ast.CallExpr); ok && e.inl != nil && e.depth < 4 {
 				if body := e.inl.Body(call); body != nil {
 					e.depth++
